@@ -12,7 +12,7 @@ import translate_esc, translate_ns
 PROLOGUE = u"<?xml version='1.0' encoding='UTF-8'?>\n"
 LEMMA_MODULES = ['OdfModel.Xml.EscapeLemmas', 'OdfModel.Xml.AttrLemmas', 'OdfModel.Xml.TagLemmas',
                  'OdfModel.Xml.ContentLemmas', 'OdfModel.Xml.RoundTrip', 'OdfModel.Xml.NsLemmas',
-                 'OdfModel.Xml.NsRoundTrip', 'OdfModel.Xml.Compose', 'OdfModel.NsLemmas']
+                 'OdfModel.Xml.NsRoundTrip', 'OdfModel.Xml.Compose', 'OdfModel.Xml.Encodable', 'OdfModel.NsLemmas']
 
 
 def setup(chk, prop_modules):
